@@ -167,6 +167,9 @@ CURATED = [
     ("async-for", "async def f():\n    async for i in x:\n        pass\n"),
     ("raise-in-elif", "if 0:\n    pass\nelif 1:\n    raise E\n"),
     ("global-star-import", "from os import *\n"),
+    ("relative-star-import", "from . import *\n"),
+    ("relative-star-import-2", "x = 1\nfrom .. import *\ny = 2\n"),
+    ("relative-star-import-in-if", "if True:\n    pass\nfrom .pkg import *\n"),
     ("two-stars-walrus-free", "[*a, *b] = 1, 2\n"),
     ("return-in-class-in-def", "def f():\n    class A:\n        return 1\n"),
     ("break-in-def-in-loop", "for i in []:\n    def f():\n        break\n"),
